@@ -756,7 +756,7 @@ impl<K: KeyT, V: ValT> MapWorld<K, V> {
 
     // ------------------------------------------------------------------ get_many_mut (C15)
     pub(crate) fn op_get_many(&mut self, si: usize, op: &Op) -> VResult {
-        let ids: Vec<u32> = op.v.iter().take(4).map(|&x| x as u32 % K::UNIVERSE).collect();
+        let ids: Vec<u32> = op.v.iter().take(6).map(|&x| x as u32 % K::UNIVERSE).collect();
         let n = ids.len();
         let kv = op.k == Kd::GetManyKv;
         let base = Self::nv((op.b as u32) & !TOGGLE);
@@ -831,7 +831,9 @@ impl<K: KeyT, V: ValT> MapWorld<K, V> {
             1 => many!(1),
             2 => many!(2),
             3 => many!(3),
-            _ => many!(4),
+            4 => many!(4),
+            5 => many!(5),
+            _ => many!(6),
         });
         // do two requests resolve to the same present entry?
         let model = &self.slots[si].model;
